@@ -2496,6 +2496,11 @@ class TensorDict(TensorDictBase):
             )
         td = self._get_str(key[0], None)
         if td is None:
+            if inplace is True:
+                # set_ needs an existing entry: a missing intermediate node is a missing key
+                raise KeyError(
+                    _KEY_ERROR.format(key[0], type(self).__name__, sorted(self.keys()))
+                )
             td = self._create_nested_str(key[0])
             inplace = False
         elif not _is_tensor_collection(type(td)):
@@ -3719,6 +3724,10 @@ class _SubTensorDict(TensorDictBase):
         parent = self._source
         td = parent._get_str(key[0], None)
         if td is None:
+            if inplace is True:
+                raise KeyError(
+                    _KEY_ERROR.format(key[0], type(self).__name__, sorted(self.keys()))
+                )
             td = parent.select()
             parent._set_str(
                 key[0], td, inplace=False, validated=True, non_blocking=non_blocking
